@@ -4,7 +4,7 @@ from core import World, parse_fs, Line
 from gen import Gen, mode_line
 from suites import gen_history, emit_exec, exp_silent, exp_same_fs, run_suite, parse_snap, parse_snap_scan, esc, snap_file_suffix, mutate_call
 
-LEAN_MODULES = ['GoSnaps.Props.C04', 'GoSnaps.Props.C04World', 'GoSnaps.Props.Tie.Escape', 'GoSnaps.Props.Tie.SnapshotIO', 'GoSnaps.Props.Tie.Flows', 'GoSnaps.Props.Tie.EndToEnd', 'GoSnaps.Props.Tie.DifflibGen', 'GoSnaps.Props.Tie.DifflibGen2', 'GoSnaps.Props.Tie.DifflibGen3', 'GoSnaps.Props.C13Difflib', 'GoSnaps.Props.C13']
+LEAN_MODULES = ['GoSnaps.Props.C04', 'GoSnaps.Props.C04World', 'GoSnaps.Props.Tie.Escape', 'GoSnaps.Props.Tie.SnapshotIO', 'GoSnaps.Props.Tie.Flows', 'GoSnaps.Props.Tie.EndToEnd', 'GoSnaps.Props.Tie.DifflibGen', 'GoSnaps.Props.Tie.DifflibGen2', 'GoSnaps.Props.Tie.DifflibGen3', 'GoSnaps.Props.C13Difflib', 'GoSnaps.Props.C13', 'GoSnaps.Props.Tie.Wrappers']
 UPD_MODES = [(False, 'true', 'none'), (False, '', 'true'), (False, 'other', 'true'), (False, 'clean', 'true')]
 
 
